@@ -5,8 +5,8 @@
 
 #include <etl/_config/all.hpp>
 
+#include <etl/_3rd_party/gcem/gcem.hpp>
 #include <etl/_cmath/isinf.hpp>
-#include <etl/_cmath/rint.hpp>
 #include <etl/_concepts/same_as.hpp>
 #include <etl/_limits/numeric_limits.hpp>
 #include <etl/_type_traits/is_constant_evaluated.hpp>
@@ -39,13 +39,23 @@ inline constexpr struct remainder {
             return x;
         }
 
-        // x - n * y, where n is x / y rounded to the nearest integer, ties to even
-        auto const n = etl::detail::rint_fallback(x / y);
-        auto const r = x - n * y;
+        // exact: r = fmod(|x|, |y|) is the remainder for the quotient truncated towards zero; the
+        // nearest quotient (ties to even) is one further iff r is above the middle of [0, |y|],
+        // or in the middle with an odd truncated quotient
+        auto const ax  = x < Float(0) ? -x : x;
+        auto const ay  = y < Float(0) ? -y : y;
+        auto r         = etl::detail::gcem::fmod(ax, ay);
+        auto const odd = ay <= etl::numeric_limits<Float>::max() / Float(2)
+                           ? etl::detail::gcem::fmod(ax, ay + ay) >= ay // parity of trunc(|x| / |y|)
+                           : ax >= ay;                                  // |x| < 2|y|: the quotient is 0 or 1
+        auto const up  = ay - r; // distance to the next multiple; exact whenever it can decide the comparison
+        if (r > up or (r == up and odd)) {
+            r -= ay;
+        }
         if (r == Float(0)) {
             return x < Float(0) ? -Float(0) : Float(0);
         }
-        return r;
+        return x < Float(0) ? -r : r;
     }
 } remainder;
 
